@@ -233,3 +233,23 @@ impl std::ops::Not for BlockRanges {
         BlockRanges(!self.0 & (((1u32 << (MAXH + 1)) - 2) as u16))
     }
 }
+impl std::ops::BitAnd<&BlockRanges> for BlockRanges {
+    type Output = BlockRanges;
+    fn bitand(self, o: &BlockRanges) -> BlockRanges {
+        BlockRanges(self.0 & o.0)
+    }
+}
+impl std::ops::BitOr<&BlockRanges> for BlockRanges {
+    type Output = BlockRanges;
+    fn bitor(self, o: &BlockRanges) -> BlockRanges {
+        BlockRanges(self.0 | o.0)
+    }
+}
+impl TryFrom<BlockRange> for BlockRanges {
+    type Error = ();
+    fn try_from(r: BlockRange) -> Result<BlockRanges, ()> {
+        let mut b = BlockRanges::new();
+        b.insert_relaxed(r)?;
+        Ok(b)
+    }
+}
